@@ -45,6 +45,7 @@ type rlScenario struct {
 	Backoff   bool       `json:"backoff"`
 	Filter    string     `json:"filter"` // "" | require | whitelist | sample
 	LongStall bool       `json:"long_stall"`
+	TermMid   bool       `json:"term_mid"` // the tool is told to stop (SIGTERM) while a destination keeps a request of its waiting
 	Defaults  bool       `json:"defaults"` // leave go-nsq's max_attempts at its default (probe, not judged)
 	Seed      int64      `json:"seed"`
 }
@@ -72,6 +73,7 @@ type rlResult struct {
 	Concrete     [][]string `json:"concrete_schedule"`
 	Events       []rlEvent  `json:"events"`
 	Quiescence   string     `json:"quiescence"` // strict | settled | none
+	Terminated   bool       `json:"terminated_mid_request,omitempty"`
 	Violations   []string   `json:"violations"`
 	Drift        []string   `json:"drift"`
 	Inconclusive string     `json:"inconclusive,omitempty"`
@@ -103,6 +105,7 @@ type rlReport struct {
 // ------------------------------------------------------------------ scenario state
 
 type scen struct {
+	termReq chan struct{}
 	sc      rlScenario
 	mu      sync.Mutex
 	evs     []rlEvent
@@ -407,6 +410,7 @@ func (s *scen) fakeNsqdConn(c net.Conn, d int) {
 			s.mu.Unlock()
 			switch item {
 			case "A:stall":
+				s.termNow()
 				s.sleep(150 * time.Millisecond)
 			case "A:longstall":
 				s.sleep(s.msgTO + 400*time.Millisecond)
@@ -486,6 +490,16 @@ func (l *downListener) Accept() (net.Conn, error) {
 	}
 }
 
+// termNow: (scenarios with term_mid) the first destination that keeps a request waiting has the tool told to stop
+func (s *scen) termNow() {
+	if s.sc.TermMid && s.termReq != nil {
+		select {
+		case s.termReq <- struct{}{}:
+		default:
+		}
+	}
+}
+
 func (s *scen) httpHandler(d int) http.Handler {
 	return http.HandlerFunc(func(w http.ResponseWriter, r *http.Request) {
 		var body []byte
@@ -525,6 +539,7 @@ func (s *scen) httpHandler(d int) http.Handler {
 			code := 200
 			switch item {
 			case "A:stall":
+				s.termNow()
 				s.sleep(120 * time.Millisecond)
 			case "A:201":
 				code = 201
@@ -592,6 +607,9 @@ func concretise(sc *rlScenario, rng *rand.Rand) [][]string {
 					long = false
 				}
 				v = ch[rng.Intn(len(ch))]
+				if sc.TermMid {
+					v = "A:stall"
+				}
 			case "R":
 				if sc.Tool == "nsq_to_http" {
 					v = []string{"R:500", "R:503", "R:404", "R:400", "R:301", "R:418"}[rng.Intn(6)]
@@ -679,7 +697,8 @@ func runScenario(job *rlJob, sc rlScenario, src *nsqd.NSQD) rlResult {
 	t0 := time.Now()
 	rng := rand.New(rand.NewSource(sc.Seed))
 	res := rlResult{ID: sc.ID, Scenario: sc, Quiescence: "none"}
-	s := &scen{sc: sc, bodyIdx: map[string]int{}, idToM: map[string]int{}, stop: make(chan struct{}), msgTO: 2 * time.Second, lastEv: t0}
+	s := &scen{sc: sc, bodyIdx: map[string]int{}, idToM: map[string]int{}, stop: make(chan struct{}), msgTO: 2 * time.Second, lastEv: t0,
+		termReq: make(chan struct{}, 1)}
 	K := sc.NMsgs
 	s.deliv, s.fins, s.reqs, s.dfail, s.accs = make([]int, K+1), make([]int, K+1), make([]int, K+1), make([]int, K+1), make([]int, K+1)
 	s.accSet = make([]map[int]bool, K+1)
@@ -817,14 +836,26 @@ func runScenario(job *rlJob, sc rlScenario, src *nsqd.NSQD) rlResult {
 		deadline = 90 * time.Second
 	}
 	died := false
+	termed := false
 	for time.Since(t0) < deadline {
 		select {
 		case <-exited:
 			died = true
 			exited <- nil
+		case <-s.termReq:
+			// told to stop while a destination keeps one of its requests waiting: it may take its time, finish what it
+			// has in hand or leave it to the source -- but it finishes nothing that no destination has accepted
+			termed = true
+			cmd.Process.Signal(syscall.SIGTERM)
+			select {
+			case <-exited:
+				exited <- nil
+			case <-time.After(20 * time.Second):
+			}
+			time.Sleep(300 * time.Millisecond) // its last commands reach the logging proxy
 		case <-time.After(15 * time.Millisecond):
 		}
-		if died {
+		if died || termed {
 			break
 		}
 		st := src.GetStats(topicName, channel, false)
@@ -891,7 +922,9 @@ func runScenario(job *rlJob, sc rlScenario, src *nsqd.NSQD) rlResult {
 	for _, a := range s.anomaly {
 		res.Drift = append(res.Drift, "anomaly: "+a)
 	}
-	if died {
+	if termed {
+		res.Terminated = true
+	} else if died {
 		res.Inconclusive = sc.Tool + " exited by itself: " + tail(stderr.String(), 600)
 	} else if res.Quiescence == "none" {
 		res.Inconclusive = fmt.Sprintf("no quiescence within %s (delivered=%d fins=%d reqs=%d outstanding=%d)", deadline, res.Delivered, res.Fins, res.Reqs, s.outst)
